@@ -2224,6 +2224,9 @@ def run_auth_scripts(
         # execute each additional script
         scripts = scripts[1:]
         for s in scripts:
+            # a RETURN in an earlier script must not end this one early
+            if 'returned' in cache:
+                del cache['returned']
             tape = Tape(
                 s if type(s) is bytes else s.bytes,
                 callstack_limit=tape.callstack_limit,
